@@ -6,6 +6,7 @@ package main
 import (
 	"fmt"
 	"go/constant"
+	"os"
 	"go/token"
 	"go/types"
 	"strings"
@@ -19,6 +20,51 @@ func (s *State) unsupported(format string, a ...interface{}) {
 	panic(unsupported{fmt.Sprintf(format, a...)})
 }
 
+// checkOnlyFlows: every use of the parameter (through its spill cell) is an argument of a call to the named function.
+func (e *Engine) checkOnlyFlows(f *ssa.Function, fl FlowSpec) (bool, string) {
+	var param *ssa.Parameter
+	for _, p := range f.Params {
+		if p.Name() == fl.Param {
+			param = p
+		}
+	}
+	if param == nil {
+		return false, "no such parameter"
+	}
+	var bad string
+	var visit func(v ssa.Value, depth int)
+	visit = func(v ssa.Value, depth int) {
+		if depth > 4 || v.Referrers() == nil {
+			return
+		}
+		for _, r := range *v.Referrers() {
+			switch r := r.(type) {
+			case *ssa.Store:
+				if r.Val == v {
+					// spilled into a cell: follow the loads of that cell
+					if a, ok := r.Addr.(*ssa.Alloc); ok {
+						visit(a, depth+1)
+					} else {
+						bad = "stored to " + r.Addr.Name() + " at " + e.pos(r.Pos())
+					}
+				}
+			case *ssa.UnOp:
+				visit(r, depth+1)
+			case *ssa.DebugRef:
+			case ssa.CallInstruction:
+				cal := r.Common().StaticCallee()
+				if cal == nil || cal.Name() != fl.Callee {
+					bad = "used by " + r.String() + " at " + e.pos(r.Pos())
+				}
+			default:
+				bad = fmt.Sprintf("used by %s at %s", r.String(), e.pos(r.Pos()))
+			}
+		}
+	}
+	visit(param, 0)
+	return bad == "", bad
+}
+
 // verifyFunction generates all obligations of f against its contract.
 func (e *Engine) verifyFunction(f *ssa.Function, spec *FuncSpec) *collector {
 	coll := &collector{}
@@ -29,6 +75,19 @@ func (e *Engine) verifyFunction(f *ssa.Function, spec *FuncSpec) *collector {
 	for _, bad := range e.bindLoopSpecs(f, spec) {
 		coll.obls = append(coll.obls, &Obligation{Func: e.fnKey(f), Kind: "anchor", Name: "anchor:" + bad, Props: specProps(spec),
 			Goal: "false", Expect: "unsat", Cmds: nil, Where: spec.Where, Detail: "contract anchor does not resolve to a loop of the current source"})
+	}
+	if spec != nil {
+		for _, fl := range spec.Flows {
+			ok, why := e.checkOnlyFlows(f, fl)
+			o := &Obligation{Func: e.fnKey(f), Kind: "dataflow", Name: "onlyflows:" + fl.Param + "->" + fl.Callee, Props: fl.Props,
+				Goal: "true", Expect: "unsat", Where: fl.Where, Trivial: ok, Spec: "parameter " + fl.Param + " is used only as an argument of " + fl.Callee}
+			if !ok {
+				o.Goal = "false"
+				o.Kind = "anchor" // decided syntactically: reported as failed without a solver
+				o.Detail = why
+			}
+			coll.obls = append(coll.obls, o)
+		}
 	}
 	s := &State{eng: e, fn: f, spec: spec, regs: map[ssa.Value]Val{}, cells: map[*ssa.Alloc]Val{}, iters: map[*ssa.Range]iterState{},
 		heaps: map[string]string{}, ghost: map[string]Val{}, coll: coll, entryVars: map[string]Val{}}
@@ -1821,7 +1880,11 @@ func (s *State) evalSteps(lf *loopFrame, exit bool, results map[string]Val) {
 	for _, c := range l.Spec.Steps {
 		c := c
 		err := safeSpec(func() {
-			s.oblige("step", l.Name+"/"+c.Name, c.Props, env.evalBool(c.Expr), where, c.Src)
+			g := env.evalBool(c.Expr)
+			if os.Getenv("GOVC_DEBUG_STEP") != "" && strings.Contains(c.Name, os.Getenv("GOVC_DEBUG_STEP")) {
+				fmt.Fprintf(os.Stderr, "STEP %s exit=%v returned=%v path=%s goal=%s\n", c.Name, exit, results != nil, strings.Join(s.trace, ">"), truncate(g, 300))
+			}
+			s.oblige("step", l.Name+"/"+c.Name, c.Props, g, where, c.Src)
 		})
 		if err != nil {
 			s.coll.specErr(s.eng, s.fn, c, err)
